@@ -5,6 +5,9 @@ import IncrVerif.Proofs.PerKeyH39
 # A run of a per-key change detector, part 5c: **one `.unequal` iteration keeps the loop invariant**
 
 `iterUnequal_of`: `IterUnequal env` from the two transport facts of `lc-infra` (`mid_below_nec`, `mid_nec_alive`).
+Two cases (`EntryOK.input`): the per-key input node is used by its instance — then it is necessary, hence alive, and
+`expertMakeStale` flags it —, or its virtual stamp is `-1` already (never computed): whether or not the run calls
+`expertMakeStale` (`isAlive` is unknown), the virtual stamp is `-1` afterwards.
 -/
 namespace IncrVerif.Proofs.PerKeyH
 open IncrVerif.Engine IncrVerif.Driver IncrVerif.Proofs IncrVerif.Proofs.Step IncrVerif.Proofs.Sched
@@ -46,15 +49,6 @@ theorem iterUnequal_of (env : Env) (hbn : UBelowNec env) (hna : UNecAlive env) :
   have E := hent key node d hm
   obtain ⟨e, er, d0, hk, hx, hpk, hchildren⟩ := E.pnode
   have hlt := E.plt
-  -- the node is alive
-  have hnec : σ.isNecessary node = true := by
-    obtain ⟨ed, hed, -, hb⟩ := E.input
-    refine hbn [] σ pr.result node I.mid I.resNec (.step ?_ hb)
-    have hr : (σ.nodeD pr.result).kind = .expert e0 := hN.result
-    rw [hr]
-    simp only [ExpertH.kidsX, xRec_some he0]
-    exact List.mem_map_of_mem hed
-  have halive : σ.isAlive node = true := hna [] σ node I.mid I.frag I.obs hnec
   -- the run
   unfold PKL.perKeyStep at hrun
   rw [run_bind_get] at hrun
@@ -65,10 +59,6 @@ theorem iterUnequal_of (env : Env) (hbn : UBelowNec env) (hna : UNecAlive env) :
   rw [hlk] at hrun
   dsimp only at hrun
   rw [run_bind_get] at hrun
-  rw [if_pos halive] at hrun
-  have hX : Xp.IsExpert σ node (σ.nodeD node) e er := ⟨some_of_lt hlt, I.frag.valid node hlt, hk, hx⟩
-  have U := u_run hX hrun
-  have M' := u_mid I.mid I.frag hlt hk hx hrun
   -- the record of `node` is not the result's
   have hne : e ≠ eres := by
     intro h
@@ -84,6 +74,45 @@ theorem iterUnequal_of (env : Env) (hbn : UBelowNec env) (hna : UNecAlive env) :
   have hnode : er.node = node := by
     obtain ⟨er2, k1, k2⟩ := I.frag.xrec node e hlt hk
     rw [hx] at k1; cases k1; exact k2
+  -- the node is alive when it is used by its instance (necessary ⇒ alive); otherwise its virtual stamp is `-1` already
+  have hcase : σ.isAlive node = true ∨ (σ.isAlive node = false ∧ ((V σ).nodeD node).recomputedAt = -1) := by
+    rcases E.input with ⟨ed, hed, -, hb⟩ | h0
+    · refine Or.inl (hna [] σ node I.mid I.frag I.obs ?_)
+      refine hbn [] σ pr.result node I.mid I.resNec (.step ?_ hb)
+      have hr : (σ.nodeD pr.result).kind = .expert e0 := hN.result
+      rw [hr]
+      simp only [ExpertH.kidsX, xRec_some he0]
+      exact List.mem_map_of_mem hed
+    · cases ha : σ.isAlive node with
+      | true => exact Or.inl rfl
+      | false => exact Or.inr ⟨rfl, h0⟩
+  rcases hcase with halive | ⟨hdead, h0⟩
+  rotate_left
+  · -- nobody holds the node: nothing happens; the node has never been computed
+    rw [if_neg (by rw [hdead]; exact Bool.false_ne_true)] at hrun
+    have e' : σ' = σ := by cases hrun; rfl
+    subst e'
+    exact
+      { mid := I.mid, lf := I.lf, frag := I.frag, slots := I.slots, obs := I.obs, psize := I.psize, pother := I.pother,
+        pop := I.pop, core := I.core, dom := I.dom, pnOld := I.pnOld, newrec := I.newrec, pot := I.pot,
+        newKids := I.newKids, resKids := I.resKids, resNec := I.resNec,
+        forcedU := fun key' p d' hmem hp => by
+          rcases List.mem_cons.1 hmem with rfl | hmem
+          · have : (node, d) = (p, d') := by
+              have h2 := (list_lookup_eq_some_iff_mem hOK.keys key' _).2 hp
+              rw [hl] at h2; cases h2; rfl
+            cases this
+            exact h0
+          · exact I.forcedU key' p d' hmem hp,
+        resAlt := I.resAlt,
+        fsame := fun e' ers er'' hne' hs h => by
+          rcases I.fsame e' ers er'' hne' hs h with h2 | ⟨key', d', j1, j2⟩
+          · exact Or.inl h2
+          · exact Or.inr ⟨key', d', List.mem_cons_of_mem _ j1, j2⟩ }
+  rw [if_pos halive] at hrun
+  have hX : Xp.IsExpert σ node (σ.nodeD node) e er := ⟨some_of_lt hlt, I.frag.valid node hlt, hk, hx⟩
+  have U := u_run hX hrun
+  have M' := u_mid I.mid I.frag hlt hk hx hrun
   refine
     { mid := M', lf := I.lf.trans (U.lf _), frag := U.frag I.frag, slots := U.slots I.slots, obs := U.obs I.obs,
       psize := by rw [U.perkeys]; exact I.psize,
@@ -114,8 +143,9 @@ theorem iterUnequal_of (env : Env) (hbn : UBelowNec env) (hna : UNecAlive env) :
         have h2 := (list_lookup_eq_some_iff_mem hOK.keys key' _).2 hp
         rw [hl] at h2; cases h2; rfl
       cases this
-      exact U.forced_self hk
-    · exact U.forced_mono p (I.forcedU key' p d' hmem hp)
+      exact (V_stamp_iff σ' _).2 (Or.inl (U.forced_self hk))
+    · exact (U.lf (fun _ => False)).stamp
+        ((hent key' p d' (I.pnOld _ hpop key' p d' hp)).plt) (I.forcedU key' p d' hmem hp)
   · rcases I.resAlt with ⟨hL1, hL2⟩ | hR
     · refine Or.inl ⟨fun pr' h => hL1 pr' (by rw [← U.perkeys]; exact h), fun ers er'' hs h => ?_⟩
       rw [U.xother eres (Ne.symm hne)] at h
